@@ -31,14 +31,19 @@ def ext_domain(tx: t.List[str]) -> t.List[t.Dict[str, t.List[str]]]:
     out += [{"ORIGIN": ["x", x]} for x in tx[:40]]
     out.append({"K" + "abcdefghijklmnopqrstuvwxyz"[i] + "-_" : ["v%d" % i] for i in range(12)})  # many extensions
     out.append({"MANY": ["v%d" % i for i in range(40)] + [tx[1], tx[2]], "Z": [tx[3]]})  # many values
+    out.append({"HUGE": ["v%d" % i for i in range(1500)]})  # more values than the interpreter's recursion limit
+    out.append({"A": ["x"], "a": ["y"]})  # names differing only in case are different extensions
     return out
 
 
 OIDS = ["1.2", "0.9.2342", "2.16.840.1.113730", "1.3.6.1.4.1." + ".".join(str(7 * i) for i in range(40))]
-NAMES = U.LIST(["cn", "a-1", "X"]) + [["n%d" % i for i in range(30)], ["a" * 200]]
-OIDLIST = U.LIST(["top", "2.5.6.0", "a-b"]) + [["o%d" % i if i % 2 else "2.5.4.%d" % i for i in range(40)]]
-OID1 = [None, "name", "2.5.4.41", "a-b"]
-SYNTAX = [(None, None), ("1.3.6.1", None), ("1.3.6.1", 0), ("1.3.6.1", 1), ("1.3.6.1", 64), ("1.3.6.1", 32768), ("1.2", None), ("0.9.2342.19200300", 7)]
+# (case variants of one name: a case-folding cache or set would show here; very long lists: recursion limits)
+NAMES = U.LIST(["cn", "a-1", "X"]) + [["n%d" % i for i in range(30)], ["a" * 200], ["CN"], ["cn", "CN", "Cn"], ["x"], ["n%d" % i for i in range(1500)]]
+OIDLIST = U.LIST(["top", "2.5.6.0", "a-b"]) + [["o%d" % i if i % 2 else "2.5.4.%d" % i for i in range(40)], ["TOP"], ["top", "Top"], ["A-B"],
+                                               ["o%d" % i for i in range(1500)]]
+OID1 = [None, "name", "2.5.4.41", "a-b", "NAME", "Name"]
+SYNTAX = [(None, None), ("1.3.6.1", None), ("1.3.6.1", 0), ("1.3.6.1", 1), ("1.3.6.1", 64), ("1.3.6.1", 32768), ("1.2", None), ("0.9.2342.19200300", 7),
+          ("1.3.6.1", 2**31 - 1), ("1.3.6.1", 2**31), ("1.3.6.1", 2**32), ("1.3.6.1", 2**63), ("1.3.6.1", 10**30)]
 
 
 def kinds() -> t.List[U.Kind]:
